@@ -143,12 +143,33 @@ class _Return(Exception):
     pass
 
 
+class FE:
+    """a contract clause of the shape  forall e. rng(e) => exists b, j. body(e, b, j)  kept structured, so that the generator can
+    skolemise it itself: as a hypothesis it is also instantiated at the goal's skolem element with fresh witnesses, as a goal the
+    existential is instantiated with candidate witnesses (the hypotheses' witnesses, the integer constants of the path, 0, and the
+    lengths stored at them).  The resulting VC is quantifier-free in this clause -- z3's own instantiation of the forall-exists
+    alternation proved to be unstable under renaming of the fresh symbols (2 of 6 renamings timed out)."""
+    def __init__(self, rng, body):
+        self.rng, self.body = rng, body
+
+    def formula(self):
+        e, b, j = (z3.Int(f"q{next(_ctr)}") for _ in range(3))
+        return z3.ForAll([e], z3.Implies(self.rng(e), z3.Exists([b, j], self.body(e, b, j))))
+
+
 class Path:
-    def __init__(self, env, hyps):
-        self.env, self.hyps = dict(env), list(hyps)
+    def __init__(self, env, hyps, fe=()):
+        self.env, self.hyps, self.fe = dict(env), list(hyps), list(fe)
 
     def fork(self):
-        return Path(self.env, self.hyps)
+        return Path(self.env, self.hyps, self.fe)
+
+    def assume(self, t):
+        if isinstance(t, FE):
+            self.fe.append(t)
+            self.hyps.append(t.formula())
+        else:
+            self.hyps.append(t)
 
 
 class Verifier:
@@ -167,7 +188,44 @@ class Verifier:
 
     # ---------------------------------------------------------------- VCs
     def vc(self, name, path, goal, kind="post"):
-        self.vcs.append((name, list(path.hyps), goal, kind))
+        hyps = list(path.hyps)
+        if isinstance(goal, FE):
+            e0 = fresh("e", I)
+            cands_b, cands_j = [], [z3.IntVal(0)]
+            for h in path.fe:
+                wb, wj = fresh("wb", I), fresh("wj", I)
+                hyps.append(z3.Implies(h.rng(e0), h.body(e0, wb, wj)))
+                cands_b.append(wb)
+                cands_j.append(wj)
+            consts, lens_arrays = {}, {}
+
+            def walk(t, seen=set()):
+                if t.get_id() in seen:
+                    return
+                seen.add(t.get_id())
+                if z3.is_const(t) and t.decl().kind() == z3.Z3_OP_UNINTERPRETED:
+                    if t.sort() == I:
+                        consts[t.get_id()] = t
+                    elif t.sort() == z3.ArraySort(I, I):
+                        lens_arrays[t.get_id()] = t
+                for ch in t.children():
+                    walk(ch, seen)
+            for h in path.hyps:
+                if not z3.is_quantifier(h):
+                    walk(h)
+            for v in path.env.values():
+                if isinstance(v, VInt):
+                    walk(v.t)
+                elif isinstance(v, VList):
+                    walk(v.n)
+                    if v.lens is not None:
+                        walk(v.lens)
+            cands_b += list(consts.values())
+            for arr in lens_arrays.values():
+                for b in list(cands_b):
+                    cands_j.append(z3.Select(arr, b))
+            goal = z3.Implies(goal.rng(e0), z3.Or([goal.body(e0, b, j) for b in cands_b for j in cands_j] or [z3.BoolVal(False)]))
+        self.vcs.append((name, hyps, goal, kind))
 
     # ---------------------------------------------------------------- expressions
     def ev(self, e, p):
@@ -392,7 +450,7 @@ class Verifier:
             self.vc(f"call{idx}:{name}/pre/{cname}", p, t, "call-pre")
         res = symbolic(c.result, f"{name}.result")
         for cname, t in c.post(env, res, g):
-            p.hyps.append(t)
+            p.assume(t)
         self.calls.append(name)
         return res
 
@@ -587,7 +645,7 @@ class Verifier:
         body.env[ivar] = VInt(i)
         body.hyps += [0 <= i, i < n]
         for cname, t in inv(body.env, self.g):
-            body.hyps.append(t)
+            body.assume(t)
         body.env[s.target.id] = elem(i)
         for q in self.run_block(s.body, [body]):
             q.env[ivar] = VInt(i + 1)
@@ -598,7 +656,7 @@ class Verifier:
         havoc(after)
         after.env[ivar] = VInt(n)
         for cname, t in inv(after.env, self.g):
-            after.hyps.append(t)
+            after.assume(t)
         after.env.pop(s.target.id, None)
         return [after]
 
@@ -616,7 +674,7 @@ class Verifier:
                 if v.kind == "list[int]":
                     p.hyps.append(forall(1, lambda b: z3.Select(v.lens, b) >= 0))
         for cname, t in self.c.pre(self.args, self.g):
-            p.hyps.append(t)
+            p.assume(t)
         self.pre_hyps = list(p.hyps)
         self.nreturn = 0
         mutated = self.modified(self.tree.body) & set(names)
@@ -636,7 +694,11 @@ def verify_function(qualname, func, contract, registry, native_search=None, z3_m
     t0 = time.time()
     try:
         v = Verifier(qualname, func, contract, registry, z3_ms)
-        vcs = v.generate()
+        try:
+            vcs = v.generate()
+        except (KeyError, AttributeError, TypeError, z3.Z3Exception) as e:
+            # the sidecar contract names locals / shapes the rewritten code no longer has: the contract does not fit, no verdict
+            raise Unsupported(f"the sidecar contract does not fit the code ({type(e).__name__}: {e})")
     except Unsupported as e:
         return [ob(qualname, "lv-translation", "", "not-translated", mode="LV", bounded=False, backend="none",
                    reason=f"outside the LV subset: {e} -- the bounded enumeration of the same function stands in", seconds=0.0)]
